@@ -183,3 +183,42 @@ Lemma redirect_unique_many_ports :
   map (fun s => (host s, port s)) (skipn 3 (make_plaintext_redirects
      [w_tls_site (bs "8443"); w_tls_site (bs "9443"); w_tls_site (bs "7443")])) = [(bs "example.com", P80)].
 Proof. vm_compute. reflexivity. Qed.
+
+(* ---------------------------------------------------------------- the callback when nothing is obtained at startup
+   (round 5, seeded change m9: an early return of activateHTTPS when no site needs a certificate at startup) *)
+
+Definition no_startup_certificate (init : list site) : Prop :=
+  forall s, In s init -> mg (tls (mark_one s)) && negb (od (tls (mark_one s))) = false.
+
+Lemma activate_without_startup_certificate : forall init,
+  no_startup_certificate init ->
+  stage_a init = make_plaintext_redirects (map mark_one init).
+Proof.
+  intros init H. unfold stage_a. f_equal.
+  rewrite <- (map_id (map mark_one init)) at 2.
+  apply map_ext_in. intros s Hs. apply in_map_iff in Hs. destruct Hs as [s0 [Heq Hin]]. subst s.
+  unfold enable_one. cbv zeta. rewrite (H s0 Hin). reflexivity.
+Qed.
+
+Lemma activate_redirects_without_startup_certificate : forall init,
+  no_startup_certificate init ->
+  exists extra, stage_a init = map mark_one init ++ extra /\
+    (forall r, In r extra -> port r = P80 /\ scheme r = [] /\ en (tls r) = false /\ is_synth r = true) /\
+    NoDup (map host extra) /\
+    forall h, (exists r, In r extra /\ host r = h) <->
+      exists c, In c (map mark_one init) /\ host c = h /\
+        en (tls c) = true /\ nr (tls c) = false /\ port c <> P80 /\ scheme c <> HTTP /\
+        (forall o, In o (map mark_one init) -> host o = h -> port o <> P80) /\
+        (port c = P443 \/ forall o, In o (map mark_one init) -> host o = h -> port o <> P443).
+Proof.
+  intros init H. rewrite (activate_without_startup_certificate init H).
+  exact (redirect_exists_iff (map mark_one init)).
+Qed.
+
+Definition w_manual : dsite :=
+  Build_dsite [] (bs "8443") [] (bs "shop.example.com") (bs "8443") [] (TDir A2 false false false).
+Lemma activate_without_startup_certificate_witness :
+  exists init, init_sites [w_manual] = Some init /\
+    forallb (fun s => negb (mg (tls (mark_one s)) && negb (od (tls (mark_one s))))) init = true /\
+    map redir (stage_a init) = [None; Some (bs "8443")].
+Proof. eexists. split; [vm_compute; reflexivity|]. split; vm_compute; reflexivity. Qed.
